@@ -115,6 +115,18 @@ func (_this *Session) GetIteratorForType(t reflect.Type) IteratorFunction {
 		return storedIterator.(IteratorFunction)
 	}
 
+	defer func() {
+		if iterator == nil {
+			// Generation panicked (unsupported type): withdraw the placeholder and
+			// release anyone waiting on it, or every later use of t on this
+			// session would block forever.
+			_this.iteratorFuncs.Delete(t)
+			iterator = func(context *Context, value reflect.Value) {
+				panic(fmt.Errorf("no iterator could be generated for type %v", t))
+			}
+			wg.Done()
+		}
+	}()
 	verifGate("generate", t)
 	iterator = _this.getDefaultIteratorForType(t)
 	verifGate("done", t)
